@@ -362,6 +362,22 @@ Definition object_removed (n : node) (o : name) : node * list out :=
   let n2 := w_rsubs (filter (fun e => negb (startswith pat2 (fst e))) (n_rsubs n1)) n1 in
   (n2, flat_map (fun e => flat_map (fun x => send_to n2 x (MRemoved o (after_dot (fst e)))) (snd e)) gone).
 
+(* The notice loop of handle_object_removed with some peers unreachable.  While a peer is half-way through
+   disconnecting (its connection is already out of the router's peer map, handle_peer_context_removed has not
+   run yet) the manager still lists it as remote subscriber but send_message to it raises
+   QMI_MessageDeliveryException.  [u] = the peers whose sends fail; the table changes are those of
+   [object_removed]; every (signal, subscriber) notice is attempted on its own. *)
+Definition send_to_u (u : list name) (n : node) (x : name) (m : msg) : list out :=
+  if can_send n x && negb (smem str_eqb x u) then [OSend x m] else [].
+
+Definition object_removed_u (u : list name) (n : node) (o : name) : node * list out :=
+  let pat1 := n_name n ++ DOT :: o ++ [DOT] in
+  let n1 := w_lsubs (filter (fun e => negb (startswith pat1 (fst e))) (n_lsubs n)) n in
+  let pat2 := o ++ [DOT] in
+  let gone := filter (fun e => startswith pat2 (fst e)) (n_rsubs n1) in
+  let n2 := w_rsubs (filter (fun e => negb (startswith pat2 (fst e))) (n_rsubs n1)) n1 in
+  (n2, flat_map (fun e => flat_map (fun x => send_to_u u n2 x (MRemoved o (after_dot (fst e)))) (snd e)) gone).
+
 Definition peer_removed (n : node) (x : name) : node :=
   let rs := flat_map (fun e =>
                         if smem str_eqb x (snd e) then
